@@ -179,7 +179,7 @@ def repo_hash():
 CXX = "g++"
 BASEFLAGS = ["-std=c++11", "-O1", "-g", "-DNDEBUG", "-DGDSTK_VERIF", "-I" + os.path.join(REPO, "include"),
              "-I" + os.path.join(REPO, "external")]
-ASANFLAGS = ["-fsanitize=address,undefined", "-fno-sanitize-recover=all", "-fno-omit-frame-pointer"]
+ASANFLAGS = ["-fsanitize=address,undefined", "-fno-sanitize=alignment", "-fno-sanitize-recover=all", "-fno-omit-frame-pointer"]
 
 
 def prune_cache(keep=None, max_impl=6, min_age_s=900):
